@@ -1,1 +1,190 @@
-// filled in later
+//! RFC 9420 section 8 (key schedule), 9 (secret tree), 8.4 (PSK), 8.5 (exporter), 6.1/8.1 tags,
+//! written from the RFC on bare `sha2` / `hmac`; HKDF (RFC 5869) is spelled out by hand.
+
+use hmac::{Hmac, Mac};
+use sha2::{Digest, Sha256, Sha384, Sha512};
+
+use super::tls::put_vbytes;
+
+#[derive(Clone, Copy, Debug, PartialEq, Eq)]
+pub struct Suite(pub u16);
+
+impl Suite {
+    pub fn nh(&self) -> usize {
+        match self.0 {
+            1 | 2 | 3 => 32,
+            7 => 48,
+            4 | 5 | 6 => 64,
+            _ => panic!("MACHINERY: unknown suite"),
+        }
+    }
+    pub fn nk(&self) -> usize {
+        match self.0 {
+            1 | 2 => 16,
+            _ => 32,
+        }
+    }
+    pub fn nn(&self) -> usize {
+        12
+    }
+    pub fn hash(&self, data: &[u8]) -> Vec<u8> {
+        match self.nh() {
+            32 => Sha256::digest(data).to_vec(),
+            48 => Sha384::digest(data).to_vec(),
+            _ => Sha512::digest(data).to_vec(),
+        }
+    }
+    pub fn hmac(&self, key: &[u8], data: &[u8]) -> Vec<u8> {
+        match self.nh() {
+            32 => {
+                let mut m = Hmac::<Sha256>::new_from_slice(key).unwrap();
+                m.update(data);
+                m.finalize().into_bytes().to_vec()
+            }
+            48 => {
+                let mut m = Hmac::<Sha384>::new_from_slice(key).unwrap();
+                m.update(data);
+                m.finalize().into_bytes().to_vec()
+            }
+            _ => {
+                let mut m = Hmac::<Sha512>::new_from_slice(key).unwrap();
+                m.update(data);
+                m.finalize().into_bytes().to_vec()
+            }
+        }
+    }
+    /// HKDF-Extract(salt, ikm) = HMAC(salt, ikm); an empty salt means Nh zero bytes
+    pub fn extract(&self, salt: &[u8], ikm: &[u8]) -> Vec<u8> {
+        let zeros = vec![0u8; self.nh()];
+        self.hmac(if salt.is_empty() { &zeros } else { salt }, ikm)
+    }
+    /// HKDF-Expand(prk, info, len)
+    pub fn expand(&self, prk: &[u8], info: &[u8], len: usize) -> Vec<u8> {
+        let mut out = vec![];
+        let mut t: Vec<u8> = vec![];
+        let mut i = 1u8;
+        while out.len() < len {
+            let mut inp = t.clone();
+            inp.extend_from_slice(info);
+            inp.push(i);
+            t = self.hmac(prk, &inp);
+            out.extend_from_slice(&t);
+            i = i.wrapping_add(1);
+        }
+        out.truncate(len);
+        out
+    }
+    pub fn expand_with_label(&self, secret: &[u8], label: &[u8], context: &[u8], len: usize) -> Vec<u8> {
+        let mut info = (len as u16).to_be_bytes().to_vec();
+        let mut full = b"MLS 1.0 ".to_vec();
+        full.extend_from_slice(label);
+        put_vbytes(&mut info, &full);
+        put_vbytes(&mut info, context);
+        self.expand(secret, &info, len)
+    }
+    pub fn derive_secret(&self, secret: &[u8], label: &[u8]) -> Vec<u8> {
+        self.expand_with_label(secret, label, &[], self.nh())
+    }
+}
+
+#[derive(Clone, Debug, PartialEq, Eq)]
+pub struct Epoch {
+    pub joiner_secret: Vec<u8>,
+    pub welcome_key: Vec<u8>,
+    pub welcome_nonce: Vec<u8>,
+    pub epoch_secret: Vec<u8>,
+    pub sender_data_secret: Vec<u8>,
+    pub encryption_secret: Vec<u8>,
+    pub exporter_secret: Vec<u8>,
+    pub external_secret: Vec<u8>,
+    pub confirmation_key: Vec<u8>,
+    pub membership_key: Vec<u8>,
+    pub resumption_psk: Vec<u8>,
+    pub epoch_authenticator: Vec<u8>,
+    pub init_secret: Vec<u8>,
+}
+
+pub fn joiner_secret(s: Suite, init_secret: &[u8], commit_secret: &[u8], context: &[u8]) -> Vec<u8> {
+    let pre = s.extract(init_secret, commit_secret);
+    s.expand_with_label(&pre, b"joiner", context, s.nh())
+}
+
+pub fn epoch_from_joiner(s: Suite, joiner: &[u8], psk_secret: &[u8], context: &[u8]) -> Epoch {
+    let member = s.extract(joiner, psk_secret);
+    let welcome_secret = s.derive_secret(&member, b"welcome");
+    let epoch_secret = s.expand_with_label(&member, b"epoch", context, s.nh());
+    let d = |l: &[u8]| s.derive_secret(&epoch_secret, l);
+    Epoch {
+        joiner_secret: joiner.to_vec(),
+        welcome_key: s.expand_with_label(&welcome_secret, b"key", &[], s.nk()),
+        welcome_nonce: s.expand_with_label(&welcome_secret, b"nonce", &[], s.nn()),
+        sender_data_secret: d(b"sender data"),
+        encryption_secret: d(b"encryption"),
+        exporter_secret: d(b"exporter"),
+        external_secret: d(b"external"),
+        confirmation_key: d(b"confirm"),
+        membership_key: d(b"membership"),
+        resumption_psk: d(b"resumption"),
+        epoch_authenticator: d(b"authentication"),
+        init_secret: d(b"init"),
+        epoch_secret,
+    }
+}
+
+pub fn epoch_from_init(s: Suite, init_secret: &[u8], commit_secret: &[u8], psk_secret: &[u8], context: &[u8]) -> Epoch {
+    let j = joiner_secret(s, init_secret, commit_secret, context);
+    epoch_from_joiner(s, &j, psk_secret, context)
+}
+
+pub fn export(s: Suite, exporter_secret: &[u8], label: &[u8], context: &[u8], len: usize) -> Vec<u8> {
+    let d = s.derive_secret(exporter_secret, label);
+    s.expand_with_label(&d, b"exported", &s.hash(context), len)
+}
+
+/// Secret of tree node `x` of a full secret tree with `n` leaves, by descending from the root.
+pub fn tree_node_secret(s: Suite, encryption_secret: &[u8], n: u32, x: u32) -> Vec<u8> {
+    use super::treemath as tm;
+    let mut cur = tm::root(n);
+    let mut sec = encryption_secret.to_vec();
+    while cur != x {
+        let (l, r) = (tm::left(cur).unwrap(), tm::right(cur).unwrap());
+        if x < cur {
+            sec = s.expand_with_label(&sec, b"tree", b"left", s.nh());
+            cur = l;
+        } else {
+            sec = s.expand_with_label(&sec, b"tree", b"right", s.nh());
+            cur = r;
+        }
+    }
+    sec
+}
+
+/// (key, nonce) of `generation` of the handshake / application ratchet of `leaf`.
+pub fn message_key(s: Suite, encryption_secret: &[u8], n: u32, leaf: u32, handshake: bool, generation: u32) -> (Vec<u8>, Vec<u8>) {
+    let leaf_secret = tree_node_secret(s, encryption_secret, n, 2 * leaf);
+    let mut sec = s.expand_with_label(&leaf_secret, if handshake { b"handshake" } else { b"application" }, &[], s.nh());
+    for g in 0..generation {
+        sec = s.expand_with_label(&sec, b"secret", &g.to_be_bytes(), s.nh());
+    }
+    let ctx = generation.to_be_bytes();
+    (s.expand_with_label(&sec, b"key", &ctx, s.nk()), s.expand_with_label(&sec, b"nonce", &ctx, s.nn()))
+}
+
+/// psk_secret of section 8.4 for (encoded PreSharedKeyID, psk value) in order.
+pub fn psk_secret(s: Suite, psks: &[(Vec<u8>, Vec<u8>)]) -> Vec<u8> {
+    let mut acc = vec![0u8; s.nh()];
+    let count = psks.len() as u16;
+    for (i, (id, psk)) in psks.iter().enumerate() {
+        let extracted = s.extract(&vec![0u8; s.nh()], psk);
+        let mut label = id.clone();
+        label.extend((i as u16).to_be_bytes());
+        label.extend(count.to_be_bytes());
+        let input = s.expand_with_label(&extracted, b"derived psk", &label, s.nh());
+        acc = s.extract(&input, &acc);
+    }
+    acc
+}
+
+pub fn confirmation_tag(s: Suite, confirmation_key: &[u8], confirmed_transcript_hash: &[u8]) -> Vec<u8> {
+    s.hmac(confirmation_key, confirmed_transcript_hash)
+}
